@@ -179,6 +179,22 @@ def body_counter(S, t, part):
                       "timeout events": "timeout-resets"}[bad[0]]
             raise Violation(clause, "Counter.count" if op == "count" else ("LogicBlock." + op if op in ("enable", "disable", "reset", "restart") else "Counter.event_" + op if op != "wait" else "LogicBlock._logic_block_timeout"),
                             "after op %d %s: (value, enabled, completed, hits, completes, timeouts) = %s, reference %s" % (i, op, got, want))
+    # epilogue: latent state (a stuck hit window, a lost timer) shows on the next use: wait out the window, re-enable, count
+    t.advance_time_and_run(1.5)
+    m_tick(t.loop.time())
+    m.events.post("cnt_enable")
+    M["enabled"] = True
+    m_timer_start(t.loop.time())
+    m.events.post("cnt_count")
+    t.advance_time_and_run(0.001)
+    M["value"] += (mag if up else -mag)
+    M["hits"] += 1
+    if reached(M["value"]):
+        m_complete(t.loop.time())
+    got = (c.value, bool(c.enabled), bool(c.completed), hits[0], completes[0])
+    want = (M["value"], M["enabled"], M["completed"], M["hits"], M["completes"])
+    if got != want:
+        raise Violation("value-equals-start-plus-accepted-hits", "Counter.count", "epilogue (wait 1.5 s, enable, count): (value, enabled, completed, hits, completes) = %s, reference %s" % (got, want))
     S.note("nontrivial", accepted > 0)
     S.note("accepted", accepted)
 
@@ -225,7 +241,8 @@ def body_steps(S, t, part):
                     if all(M["done"]):
                         m_complete()
                 else:
-                    if op == M["pos"]:
+                    # sequence events: step0 = seq_s0, step1 = seq_s0 again, step2 = seq_s2; seq_s1 is no step at all
+                    if M["pos"] < 3 and op == (0, 0, 2)[M["pos"]]:
                         M["pos"] += 1
                         M["hits"] += 1
                         acc += 1
